@@ -313,8 +313,10 @@ let () =
         let na = List.length sa.r_log in
         let sb = rrun32 sa (calls_of_toks tb) in
         let rec drop n l = if n = 0 then l else match l with _ :: r -> drop (n - 1) r | [] -> [] in
-        let reused = String.concat " " (List.map rcall_str (drop na sb.r_log)) in
-        let fresh = String.concat " " (List.map rcall_str (rrun32 s0 (calls_of_toks tb)).r_log) in
+        let sel s = Printf.sprintf " | cs=%d ns=%d" (int_of_z s.r_csel) (int_of_z s.r_nsel) in
+        let reused = String.concat " " (List.map rcall_str (drop na sb.r_log)) ^ sel sb in
+        let sf = rrun32 s0 (calls_of_toks tb) in
+        let fresh = String.concat " " (List.map rcall_str sf.r_log) ^ sel sf in
         reused ^ " || " ^ fresh
     | _ -> failwith "REUSE");
   reg "EREUSE" (fun a ->
